@@ -53,4 +53,4 @@ class C03(DTDCheck):
         # write flow followed by another flow of the same datum: NULL pointer for the later flow
         out.append("dtd 1 4 lfq 0 0 3 2 | 0x ; 0w 0r ; 0x")
         out.append("dtd 2 4 lfq 0 0 3 2 | 0x ; 1x ; 0x 1r 0r ; 0x")
-        return out
+        return out + self.late_rr_cases()
